@@ -791,3 +791,19 @@ pub mod overflow {
         }
     }
 }
+
+// H13 — The leaf stage of the B-tree update (`beatree/ops/update/leaf_updater.rs`): the real `LeafUpdater` on
+// caller-supplied base leaves, its produced leaves / separators / cutoffs, the overflow-callback log and a
+// view of its private state.
+pub mod leaf_updater {
+    pub use crate::beatree::ops::leaf_updater_verif::{
+        entries_of, make_leaf, DigestOutcome, Entry, LeafUpdaterSim, OpView, Produced, StateView,
+    };
+    /// The constants the updater works with.
+    pub const LEAF_NODE_BODY_SIZE: usize = crate::beatree::ops::leaf_updater_verif::consts::BODY;
+    pub const LEAF_MERGE_THRESHOLD: usize = crate::beatree::ops::leaf_updater_verif::consts::MERGE;
+    pub const LEAF_BULK_SPLIT_THRESHOLD: usize =
+        crate::beatree::ops::leaf_updater_verif::consts::BULK_THRESHOLD;
+    pub const LEAF_BULK_SPLIT_TARGET: usize = crate::beatree::ops::leaf_updater_verif::consts::BULK_TARGET;
+    pub const MAX_LEAF_VALUE_SIZE: usize = crate::beatree::ops::leaf_updater_verif::consts::MAX_VALUE;
+}
